@@ -93,7 +93,7 @@ PROPS = {
         'seeded filter / listener / dispatch histories (direct and queued) in lockstep with a dispatcher-with-filters model; harness mixins before and after MixinFilter record their position; canContinueInvoking, conditionalFunctor and argumentAdapter variants',
         'Seeded search over histories of appendFilter / removeFilter (also from inside a filter), listener changes and dispatches - direct, and performed by EventQueue::process - with by-value and by-reference prototype parameters, arguments as lvalues and temporaries. Every filter call is checked when it happens: it must be the next filter in order of addition that is still attached, see the arguments as modified by the earlier filters, and no filter or listener may run after a filter returned false; listeners must see the modified values. Variants: MixinFilter alone, between two recording mixins, on EventQueue, MixinHeterFilter on HeterEventDispatcher (exact argument types; a second, small stage dispatches int arguments to prototypes <void(long, Payload), void(int, Payload)> and reproduces the recorded, unrepaired defect listed in known_findings.txt: the filters run belong to another prototype than the listeners that run; a third small stage lists a mixin without an interceptor before MixinFilter and reproduces the second recorded defect: the filters run twice); canContinueInvoking reading a flag in a by-reference argument while a second, tracked argument is taken by value by the prototype, the listeners and the policy itself (CallbackList and EventDispatcher; a moved-from value is visible to the next listener); conditionalFunctor and argumentAdapter (value and shared_ptr flavours).',
         'Trusted: the filter model. With lvalue arguments a heterogeneous dispatcher forwards references to the caller\'s own objects, so that variant dispatches temporaries only.',
-        'Each evaluation is one seeded history of 8-38 operations on one of six configurations. Non-trivial = contains a dispatch; distinct = distinct plan hashes.'),
+        'Each evaluation is one seeded history of 8-38 operations on one of seven configurations of the main stage. Non-trivial = contains a dispatch; distinct = distinct plan hashes.'),
     'C14': seq_prop('seq_heter', [st('c14-g++', 'seq_heter', 'c14', 300000, 6000000), st('c14-clang++', 'seq_heter_clang', 'c14', 300000, 6000000)],
         'seeded histories over HeterCallbackList / HeterEventDispatcher / HeterEventQueue with five prototypes whose argument types differ in size and triviality (ledger-tracked), recycled queue slots, and every predicate prototype; per-prototype list models and a FIFO queue model; ledger turns a slot read as the wrong type into a deterministic error',
         'Seeded search over histories that mix nine callback shapes (callable with exactly one prototype, with several, variadic), eight argument shapes (exact, convertible to one or several prototypes) and seven predicate shapes. The expected prototype of every shape is tabulated by hand ("first listed prototype it can be called with"). Checked: which callbacks run, in which order, with which (converted) argument values; queue FIFO across prototypes for process/processOne; processIf asks its predicate about exactly the queued events of its prototype and leaves every other event untouched and in place; payload integrity (pattern-filled 180-byte payload, tracked small payload, strings).',
@@ -103,12 +103,12 @@ PROPS = {
         'seeded ScopedRemover lifecycle histories (add/remove through removers, reset, re-target, move construction, move assignment into empty and non-empty removers, swap, destruction in any order) against a responsibility model; attached set observed by enumeration after every step',
         'Seeded search over histories with up to 3 removers and 2 targets (CallbackList, EventDispatcher, EventQueue). The model tracks which remover is responsible for which listener; what a move assignment displaces from its destination enters a limbo set (accepted attached or detached, once seen detached it must stay so, and must be detached when the last remover involved is destroyed) - exactly the window the statement gives.',
         'Trusted: the responsibility model. Self-move-assignment is not generated; adding through a remover without a target (a null dereference by contract) is not generated.',
-        'Each evaluation is one seeded history of 10-40 operations. Non-trivial = a listener is added through a remover; distinct = distinct plan hashes.'),
+        'Each evaluation is one seeded history of 10-40 operations; removers are built in storage pre-filled with a plan-chosen pattern, one target variant is a CallbackList whose mutexes (the remover\'s own too) are real SpinLocks run inside one simulated task. The second stage runs 4-12 operation histories under fault enumeration, including throwing event hash / == inside reset() and re-targeting (an interrupted reset leaves the remover responsible). Non-trivial = a listener is added through a remover; distinct = distinct plan hashes.'),
     'C16': seq_prop('seq_remover', [st('c16', 'seq_remover', 'c16', 1000000, 8000000)],
         'seeded trigger histories for CounterRemover / ConditionalRemover incl. re-entrant triggers from the wrapped listener, queued triggers and direct removals, in lockstep with a counting model (snapshot semantics for the listener lists)',
         'Seeded search over histories with counts n in [-3,5], condition outcome sequences as bit patterns, conditions with and without the trigger argument that keep their own evaluation count inside the callable (the stored condition object itself must be the one evaluated on every trigger), plain listeners before/after, direct and queued triggers, re-entrant triggers of the same key from inside the wrapped listener, and direct removals, on CallbackList, EventDispatcher, EventQueue and HeterEventDispatcher. The helper objects are temporaries destroyed before the first trigger. Every listener call and every condition evaluation is checked when it happens.',
         'Trusted: the counting model. Wrapped listeners cannot be identified by enumeration, so attachment is observed through triggers (two closing trigger rounds per list).',
-        'Each evaluation is one seeded history of 10-40 operations. Non-trivial = a listener is added through CounterRemover or ConditionalRemover; distinct = distinct plan hashes.'),
+        'Each evaluation is one seeded history of 10-40 operations on CallbackList, EventDispatcher, EventQueue or one of two HeterEventDispatcher targets (<void(int), void()>; <void(Derived), void(Base&)> with listeners taking Base&, every trigger preceded by one of the other prototype). Non-trivial = a listener is added through CounterRemover or ConditionalRemover; distinct = distinct plan hashes.'),
     'C17': seq_prop('seq_anydata', [st('c17', 'seq_anydata', 'c17', 2000000, 20000000), st('c17-faults', 'seq_anydata', 'c09', 60000, 600000)],
         'seeded move-chain / read / EventQueue round-trip histories over a compile-time sweep of AnyData capacities and stored types, ledger-tracked; the second stage re-runs the histories with the k-th allocation / copy / move throwing',
         'Compile-time sweep: AnyData<N> for N in {1, 8, 16, 24, 64} (capacities 16, 16, 16, 24, 64) x 56 stored types: trivial byte arrays of 22 sizes from 1 to 200 bytes (every capacity, capacity + 1 and capacity + 2 among them), tracked non-trivial, move-only and shared-ownership types of 6-10 sizes each, and a trivially destructible but self-referential type (it stores its own address and its move constructor marks the source) in 8 sizes around the capacities, so that a byte-wise relocation instead of a move is visible. Per history: construction from lvalue and rvalue, chains of move constructions over 4 slots, reads through get / reference / pointer / getAddress (must agree and be stable), isType for the stored type and for a different type of the same size and kind, queue round trips (enqueue, process / processOne) with the listener reading the value, destruction in any order; inline-vs-heap placement is checked against the capacity; no copy construction of the held object may happen while an AnyData is moved or enqueued as an rvalue; the ledger demands exactly one destruction per instance and nothing alive at the end.',
@@ -122,9 +122,9 @@ PROPS = {
 
     'C04': seq_prop('seq_disp', [st('c04-g++', 'seq_disp', 'c04', 300000, 6000000), st('c04-clang++', 'seq_disp_clang', 'c04', 300000, 6000000), st('c04-event-vs-argument-rewriting-filters', 'seq_filter', 'c04k', 100000, 2000000)],
         'seeded dispatcher histories over a key-type / map / prototype / ArgumentPassingMode / listener-parameter / value-category matrix against a per-event list model, the same seeds executed by a g++ build and a clang++ build (the two compilers evaluate dispatch()\'s argument expressions in opposite orders)',
-        'Seeded search over histories of per-event listener management and dispatches for thirteen instantiations (int, enum class, std::string taken by value, user key with < only, user key with colliding hash and ==, getEvent policy on a field, explicit std::map policy, and two exclude-event instantiations whose getEvent policy is not the identity on the leading argument: bit-masking int ids, suffix-stripping std::string names, leading argument of the Event type and of another type; an exclude-event instantiation whose getEvent policy reads a trailing by-value std::string argument; and an EventQueue keyed by a by-value std::string in the include-event form, where a dispatch is enqueue + process; a getEvent policy that returns a reference; and a non-owning key type that refers to the std::string it was made from), with listeners whose parameter types differ from the prototype or that move from a by-value parameter, and arguments supplied as lvalues, temporaries and moved locals, in both argument-passing forms. Every listener call is compared with the model when it happens (which listener, in which order, with which argument values).',
+        'Seeded search over histories of per-event listener management and dispatches for fifteen instantiations (int, enum class, std::string taken by value, user key with < only, user key with colliding hash and ==, getEvent policy on a field, explicit std::map policy, and two exclude-event instantiations whose getEvent policy is not the identity on the leading argument: bit-masking int ids, suffix-stripping std::string names, leading argument of the Event type and of another type; an exclude-event instantiation whose getEvent policy reads a trailing by-value std::string argument; and an EventQueue keyed by a by-value std::string in the include-event form, where a dispatch is enqueue + process; a getEvent policy that returns a reference; and a non-owning key type that refers to the std::string it was made from), with listeners whose parameter types differ from the prototype or that move from a by-value parameter, and arguments supplied as lvalues, temporaries and moved locals, in both argument-passing forms. Every listener call is compared with the model when it happens (which listener, in which order, with which argument values).',
         'No schedule or fault in this property; the only non-input dimension is the unspecified evaluation order, which the simulator cannot control and therefore samples with the two compilers present. Trusted: the per-event list model.',
-        'Each evaluation is one seeded history of 8-35 operations on one of thirteen EventDispatcher / EventQueue instantiations, run in a g++ build and in a clang++ build. Non-trivial = contains a dispatch; distinct = distinct plan hashes.',
+        'Each evaluation is one seeded history of 8-35 operations on one of fifteen EventDispatcher / EventQueue instantiations (the stage on the filter engine adds a getEvent policy that returns a reference to an argument which MixinFilter filters rewrite), run in a g++ build and in a clang++ build. Non-trivial = contains a dispatch; distinct = distinct plan hashes.',
         assumptions=['rvalue-reference prototypes do not compile with the library and are not generated', 'only the compilers and the standard library installed here (g++ 12, clang++ 14, libstdc++) can be sampled']),
     'C05': seq_prop('seq_queue', [st('c05', 'seq_queue', 'c05', 300000, 6000000), st('c05-getevent-policies-g++', 'seq_disp', 'c05q', 60000, 1200000), st('c05-getevent-policies-clang++', 'seq_disp_clang', 'c05q', 60000, 1200000)],
         'seeded queue histories incl. operations issued from listeners and predicates, executed in lockstep with a FIFO queue model (exactly-once, order, argument values, every boolean result)',
